@@ -220,6 +220,8 @@ def same_orig(a, b):
     """tolist value vs original scalar."""
     if a is b:
         return True
+    if isinstance(b, (bool, np.bool_)) != isinstance(a, (bool, np.bool_)):
+        return False   # True is not 1 or 1.0: a boolean comes back as a boolean, a number as a number
     if isinstance(b, np.timedelta64):
         b = b.astype("timedelta64[us]").item()
     if isinstance(b, np.generic):
